@@ -247,13 +247,24 @@ func DecodeStream(r Getter, path *CycleCheck, x *Stream) (io.ReadCloser, error) 
 		}
 	}
 
-	for _, fi := range filters {
+	// A DCTDecode layer owns a producer goroutine which only exits once its
+	// pipe is closed.  Closing the top of the chain does not reach a DCT layer
+	// further down, so these layers are remembered and closed explicitly.
+	// (Closing a pipe is safe while another layer still reads from it.)
+	var below []io.Closer
+	for i, fi := range filters {
 		out, err = fi.Decode(v, out, budget)
 		if err != nil {
+			for _, c := range below {
+				c.Close()
+			}
 			return nil, src.promote(err)
 		}
+		if _, isDCT := fi.(FilterDCT); isDCT && i < len(filters)-1 {
+			below = append(below, out)
+		}
 	}
-	return &sourceAwareReader{inner: out, src: src}, nil
+	return &sourceAwareReader{inner: out, src: src, below: below}, nil
 }
 
 // sourceErrChecker wraps the raw byte source underlying a decoded PDF
@@ -299,6 +310,7 @@ func (s *sourceErrChecker) promote(err error) error {
 type sourceAwareReader struct {
 	inner io.ReadCloser
 	src   *sourceErrChecker
+	below []io.Closer // layers under inner which must be closed with it
 }
 
 func (s *sourceAwareReader) Read(p []byte) (int, error) {
@@ -309,7 +321,13 @@ func (s *sourceAwareReader) Read(p []byte) (int, error) {
 	return n, err
 }
 
-func (s *sourceAwareReader) Close() error { return s.inner.Close() }
+func (s *sourceAwareReader) Close() error {
+	err := s.inner.Close()
+	for i := len(s.below) - 1; i >= 0; i-- {
+		s.below[i].Close()
+	}
+	return err
+}
 
 // GetFilters extracts the information contained in the /Filter and
 // /DecodeParms entries of a stream dictionary.
